@@ -413,7 +413,8 @@ def parseCmd (name : Bytes) (a : List Bytes) : Option Cmd :=
        else if u == sb "setname" then (match r with | [x] => some (.clientSetname x) | _ => none)
        else if u == sb "info" then (if r.isEmpty then some .clientInfo else none)
        else if u == sb "list" then some .clientList
-       else some (.opaque "client")
+       else if u == sb "kill" || u == sb "no-evict" || u == sb "setinfo" || u == sb "unblock" then some (.opaque "client")
+       else none
      | [] => none)
   else if n == sb "blpop" || n == sb "brpop" then
     (match a with
@@ -810,6 +811,7 @@ def dispatch (c : Ctx) (s : State) (conn : Nat) (argv : List Bytes) : Out :=
     | none =>
       let ses' := if ses.queue.isSome && !c.q.queueErrorNoAbort then { ses with queueErr := true } else ses
       { st := s.setSession conn ses', reply := errArity name }
+    | some (.opaque _) => { st := s, reply := .nil, judged := false }   -- handled by the emulator, not modelled
     | some cmd => dispatchParsed c s conn argv cmd
 
 end RedisEmu
